@@ -243,6 +243,20 @@ type evidence struct {
 	Violations  int                    `json:"violations"`
 }
 
+// selfTest runs HarnessEngineSelfTest (harness/leaf/selftest.go) and returns "" when
+// every assertion in it holds on its single path.
+func selfTest(ld *Loader) string {
+	hr := explore(ld, RunConfig{Harness: "HarnessEngineSelfTest", Pkg: modPath + "/internal/zzleaf", Solver: parseSolverKind("z3"), TimeoutMS: 10000,
+		MaxSteps: 1000000, WallBudget: time.Minute, Workers: 1})
+	if len(hr.Cex) > 0 {
+		return fmt.Sprintf("%s fails in the engine", hr.Cex[0].Obligation)
+	}
+	if hr.Reached["selftest-end"] == 0 {
+		return fmt.Sprintf("end not reached: outcomes=%v %v", hr.Outcomes, hr.Inconclusive)
+	}
+	return ""
+}
+
 func cmdCheck(args []string) {
 	fs := flag.NewFlagSet("check", flag.ExitOnError)
 	verifDir := fs.String("verif", "/verif", "verif directory")
@@ -287,6 +301,9 @@ func cmdCheck(args []string) {
 	for p := range pkgSet {
 		patterns = append(patterns, modPath+"/internal/zz"+p)
 	}
+	if !pkgSet["leaf"] {
+		patterns = append(patterns, modPath+"/internal/zzleaf") // the engine self-test lives there
+	}
 	sort.Strings(patterns)
 	tl := time.Now()
 	ld, err := load(*verifDir, patterns)
@@ -320,6 +337,12 @@ func cmdCheck(args []string) {
 	reachedAll := map[string]int{}
 	var unconfirmed []string
 	failedObl := map[string]bool{}
+
+	// the executor's own regression test: Go semantics it once got wrong must
+	// execute as they do natively, or nothing below is believed
+	if st := selfTest(ld); st != "" {
+		inconclusive = append(inconclusive, "engine self-test failed: "+st)
+	}
 
 	for _, s := range specs {
 		if *only != "" && !strings.Contains(s.Name, *only) {
@@ -411,6 +434,19 @@ func cmdCheck(args []string) {
 					validated++
 				} else {
 					mismatch++
+					for _, f := range r.Failed {
+						if _, isKnown := knownByKey[f]; !isKnown && r.Outcome == "done" {
+							// the real code fails an obligation on an input the encoding let pass
+							h := sha1.Sum([]byte(fmt.Sprint(f, hr.PassVectors[i].Vars)))
+							rp := filepath.Join(*verifDir, "replays", prop, fmt.Sprintf("%s-%x.json", sanitize(f), h[:4]))
+							writeVector(rp, vectorFile{Harness: s.Name, Pkg: s.Pkg, Vars: hr.PassVectors[i].Vars, Params: params, Expect: f, Kind: "assert",
+								Detail: "native run of an input of a path the encoding found clean", Property: prop})
+							fmt.Printf("VIOLATION property=%s replay=%s\n", prop, rp)
+							fmt.Printf("  obligation=%s kind=assert harness=%s vars=%v found by the native run of a path input (the encoding did not predict it)\n", f, s.Name, hr.PassVectors[i].Vars)
+							violations++
+							break
+						}
+					}
 					if mismatch <= 3 {
 						inconclusive = append(inconclusive, fmt.Sprintf("%s: engine/native mismatch on a passing path: native outcome=%q failed=%v obs=%v, engine obs=%v vars=%v", s.Name, r.Outcome, r.Failed, r.Obs, want, hr.PassVectors[i].Vars))
 					}
@@ -433,6 +469,7 @@ func cmdCheck(args []string) {
 			vf := vectorFile{Harness: s.Name, Pkg: s.Pkg, Vars: vars, Params: params, Expect: key, Kind: c.Kind, Detail: firstLines(c.Detail, 3), Obs: obsStrings(c.Observed), Property: prop, Stress: s.Schedule || s.MapOrder}
 			confirmed := false
 			why := ""
+			var nativeFailed []string
 			if s.NoNative || nat == "" {
 				why = "no native replay available for this harness"
 			} else {
@@ -473,6 +510,7 @@ func cmdCheck(args []string) {
 				}
 				if !confirmed {
 					why = fmt.Sprintf("native run: outcome=%q failed=%v", r.Outcome, r.Failed)
+					nativeFailed = r.Failed
 				}
 			}
 			if kf, isKnown := knownByKey[key]; isKnown {
@@ -485,6 +523,19 @@ func cmdCheck(args []string) {
 					unconfirmed = append(unconfirmed, key+": "+why)
 				}
 				continue
+			}
+			if !confirmed && len(nativeFailed) > 0 {
+				// the real code, run on the solver's input, fails an obligation of the
+				// harness, only not the one the encoding predicted (the encoding and the
+				// code disagree somewhere on this path): the native failure is the finding
+				for _, f := range nativeFailed {
+					if _, isKnown := knownByKey[f]; !isKnown {
+						key, confirmed = f, true
+						vf.Expect, vf.Kind = f, "assert"
+						vf.Detail = "native run of the solver's input; the encoding predicted " + c.Obligation
+						break
+					}
+				}
 			}
 			if confirmed {
 				writeVector(rp, vf)
